@@ -464,6 +464,8 @@ public:
     void setCredentials(const QXmpp::Private::Credentials &) override;
     QXmpp::Private::SaslMechanism mechanism() const override { return { QXmpp::Private::SaslDigestMd5Mechanism() }; }
     std::optional<QByteArray> respond(const QByteArray &challenge) override;
+    // <success/> is only acceptable once the server's rspauth has been verified (step 2 done)
+    bool isFinished() const override { return m_step >= 3; }
 
 private:
     QString m_password;
